@@ -7,6 +7,7 @@ statement gets a meaning on the model state (an unknown statement has none), a m
 in source order, and `Props/C12.lean` proves that this composition is the model function the theorems are about.
 -/
 import CBV.Lemmas.C12d
+import CBV.Gen.TC12
 
 namespace CBV.C12
 
